@@ -1333,6 +1333,16 @@ class _ExprNorm(ast.NodeTransformer):
                 and isinstance(node.args[0], ast.Constant) and type(node.args[0].value) is int and node.args[0].value >= 1:
             return ast.copy_location(ast.Subscript(value=ast.Call(func=ast.Attribute(value=node.func.value, attr="groups", ctx=ast.Load()), args=[], keywords=[]),
                                                    slice=ast.Constant(node.args[0].value - 1), ctx=ast.Load()), node)
+        # next((True for .. if C), False) -> any(C for ..)
+        if f == "next" and len(node.args) == 2 and not node.keywords and isinstance(node.args[0], ast.GeneratorExp) \
+                and isinstance(node.args[0].elt, ast.Constant) and node.args[0].elt.value is True \
+                and isinstance(node.args[1], ast.Constant) and node.args[1].value is False:
+            g = copy.deepcopy(node.args[0])
+            last = g.generators[-1]
+            if last.ifs:
+                g.elt = last.ifs[0] if len(last.ifs) == 1 else ast.BoolOp(op=ast.And(), values=list(last.ifs))
+                last.ifs = []
+                return self.visit_Call(ast.copy_location(ast.Call(func=ast.Name(id="any", ctx=ast.Load()), args=[g], keywords=[]), node))
         # any(not X for ..) -> not all(X for ..)   ;   all(not X for ..) -> not any(X for ..)
         if f in ("any", "all") and len(node.args) == 1 and not node.keywords and isinstance(node.args[0], (ast.GeneratorExp, ast.ListComp)) \
                 and isinstance(node.args[0].elt, ast.UnaryOp) and isinstance(node.args[0].elt.op, ast.Not):
